@@ -35,12 +35,19 @@ func (rg *registry) viewWrites(info *types.Info, n ast.Node) []string {
 	inspectNoLit(n, func(m ast.Node) bool {
 		switch s := m.(type) {
 		case *ast.AssignStmt:
-			for _, l := range s.Lhs {
+			for i, l := range s.Lhs {
 				t := unparen(l)
 				if ix, ok := t.(*ast.IndexExpr); ok {
 					t = unparen(ix.X)
 				}
 				if fv := fieldOf(info, t); fv != nil && name(fv) != "" && !freshLocalObjectAt(info, n, t) {
+					// x.view = grown, where grown is a complete copy of x.view in new storage
+					// (a capacity hint): the view holds what it held
+					if t == unparen(l) && len(s.Lhs) == len(s.Rhs) && theWorld != nil {
+						if fi := theWorld.FuncAt(s.Pos()); fi != nil && rehousedCopy(info, fi.Decl.Body, objOf(info, s.Rhs[i]), func(e ast.Expr) bool { return fieldOf(info, e) == fv }) {
+							continue
+						}
+					}
 					out = append(out, name(fv))
 				}
 			}
@@ -153,6 +160,8 @@ func checkC17(w *World, r *Report) {
 	r.Try(func() { ruleListOrderPreserved(w, r, "R17.10", la) })
 	r.Rule("R17.11", 5, "what is served is what was registered: instance registrations are answered with the descriptor's own instance, constructors with the descriptor's own function")
 	r.Try(func() { ruleFunctionIdentity(w, r, "R17.11") })
+	r.Rule("R17.16", 3, "a provider that has been built is unaffected by later changes to the collection: a registered descriptor is shared with every provider built from it and is never written again (a Configure hook commits into the collection by replacing the descriptor, not by writing through it)")
+	r.Try(func() { ruleDescriptorImmutable(w, r, "R17.16") })
 	r.Rule("R17.15", 1, "the registry views are rewritten only by their writers: no in-place slice operation on an alias of a view or on another owner's slice")
 	r.Try(func() { ruleNoInPlaceOnShared(w, r, "R17.15") })
 	r.Rule("R17.13", 1, "acceptance of a registration depends on the registry views and on the batch in hand only: every table the duplicate test consults is a view or a set made for this batch")
@@ -289,8 +298,13 @@ func checkC17(w *World, r *Report) {
 				return
 			}})
 		bad, n := "", 0
+		// exits only a mode the Add entries never use can reach (a bool parameter they pass as a constant)
+		dead := deadUnder(w, fi, constBoolParams(w, fi, addEntries(w)))
 		for _, ex := range fl.Exits() {
 			if !sol.AtExit(ex).Has("hit") {
+				continue
+			}
+			if dead != nil && dead.AtExit(ex).Has("dead") {
 				continue
 			}
 			n++
@@ -563,6 +577,8 @@ func checkInsertCallSites(w *World, r *Report, rg *registry, ins, caller *FuncIn
 	})
 	// checking loops: range over S, body starts with `if err := check(elem,...); err != nil { return ... }`, no break/continue
 	checkLoops := map[ast.Stmt]types.Object{}
+	loopFlag := map[ast.Stmt]types.Object{} // checking loop -> the flag its failed checks raise instead of returning
+	okContinues := map[*ast.BranchStmt]bool{}
 	ast.Inspect(caller.Decl.Body, func(x ast.Node) bool {
 		rs, ok := x.(*ast.RangeStmt)
 		if !ok || rs.Value == nil {
@@ -587,15 +603,22 @@ func checkInsertCallSites(w *World, r *Report, rg *registry, ins, caller *FuncIn
 			if !ok || callee(info, c) != rg.check.Obj || len(c.Args) < 1 || objOf(info, descArg(rg.check, c)) != elem {
 				continue
 			}
-			// error branch returns
-			if len(ifs.Body.List) >= 1 {
-				if _, isRet := ifs.Body.List[len(ifs.Body.List)-1].(*ast.ReturnStmt); isRet {
-					good = true
+			// error branch returns - or raises a flag and goes on to the next element (the flag is
+			// then tested after the loop: `if taken { return nil }`)
+			if ok, flags, conts := errBranchOutcome(info, ifs.Body); ok && len(flags) <= 1 {
+				good = true
+				for _, c := range conts {
+					okContinues[c] = true
+				}
+				if len(flags) == 1 && flagOnlyRaisedIn(info, caller.Decl.Body, flags[0], ifs.Body) {
+					loopFlag[rs] = flags[0]
+				} else if len(flags) == 1 {
+					good = false
 				}
 			}
 		}
 		inspectNoLit(rs.Body, func(m ast.Node) bool {
-			if b, ok := m.(*ast.BranchStmt); ok && (b.Tok == token.BREAK || b.Tok == token.CONTINUE || b.Tok == token.GOTO) {
+			if b, ok := m.(*ast.BranchStmt); ok && (b.Tok == token.BREAK || b.Tok == token.CONTINUE || b.Tok == token.GOTO) && !okContinues[b] {
 				good = false
 			}
 			return true
@@ -611,6 +634,11 @@ func checkInsertCallSites(w *World, r *Report, rg *registry, ins, caller *FuncIn
 				for _, l := range as.Lhs {
 					if o := objOf(info, l); o != nil {
 						kill = append(kill, "allchecked:"+o.Name(), "checked:"+o.Name())
+						for k := range in {
+							if strings.HasPrefix(k, "unless:") && (strings.HasSuffix(k, "|"+o.Name()) || strings.HasPrefix(k, "unless:"+o.Name()+"|")) {
+								kill = append(kill, k)
+							}
+						}
 					}
 				}
 			}
@@ -619,7 +647,27 @@ func checkInsertCallSites(w *World, r *Report, rg *registry, ins, caller *FuncIn
 		Edge: func(b *cfg.Block, i int, cond ast.Expr, in Facts) (gen, kill []string) {
 			if b.Kind == cfg.KindRangeLoop && i == 1 {
 				if s, ok := checkLoops[b.Stmt]; ok {
-					gen = append(gen, "allchecked:"+s.Name())
+					if fl := loopFlag[b.Stmt]; fl != nil {
+						gen = append(gen, "unless:"+s.Name()+"|"+fl.Name())
+					} else {
+						gen = append(gen, "allchecked:"+s.Name())
+					}
+				}
+			}
+			// the flag of a checking loop is down: every element passed
+			if cond != nil && (i == 0 || i == 1) {
+				c, neg := unparen(cond), false
+				if u, ok := c.(*ast.UnaryExpr); ok && u.Op == token.NOT {
+					c, neg = unparen(u.X), true
+				}
+				if id, ok := c.(*ast.Ident); ok {
+					if o := info.Uses[id]; o != nil && ((i == 0) != neg) == false {
+						for k := range in {
+							if strings.HasPrefix(k, "unless:") && strings.HasSuffix(k, "|"+o.Name()) {
+								gen = append(gen, "allchecked:"+strings.TrimSuffix(strings.TrimPrefix(k, "unless:"), "|"+o.Name()))
+							}
+						}
+					}
 				}
 			}
 			if be, ok := unparen(cond).(*ast.BinaryExpr); cond != nil && ok && (be.Op == token.NEQ || be.Op == token.EQL) {
@@ -672,6 +720,13 @@ func checkInsertCallSites(w *World, r *Report, rg *registry, ins, caller *FuncIn
 func checkAtomicRejection(w *World, r *Report, rg *registry) {
 	add := w.MustFn(w.Godi, "(*collection).addService")
 	funcs := w.HelperClosure(map[*FuncInfo]string{add: "addService"})
+	// … and everything addService reaches (a chain shared with another entry point is
+	// not a private helper of addService, but it is still the code a registration runs)
+	for f := range reachableFrom(w, []*FuncInfo{add}) {
+		if _, ok := funcs[f]; !ok {
+			funcs[f] = "reached from addService"
+		}
+	}
 	var fis []*FuncInfo
 	for f := range funcs {
 		if f.Pkg == w.Godi && recvNamed(f.Obj) != nil && recvNamed(f.Obj).Obj().Name() == "collection" {
